@@ -54,12 +54,14 @@ type Profile struct {
 	// MistypedAttrs: items may carry g1 with a non-declared type while no index
 	// is keyed by it, so that a later index creation meets ill-typed items
 	MistypedAttrs bool
-	MinSteps      int
-	MaxSteps      int
-	Retain        bool
-	Weights       map[string]float64
-	FaultFree     float64  // share of runs with every fault kind off
-	Faults        []string // kinds that count as faults (switched off in fault-free runs)
+	// BigUniverse: up to 5 hash and range values per table (thorough tier)
+	BigUniverse bool
+	MinSteps    int
+	MaxSteps    int
+	Retain      bool
+	Weights     map[string]float64
+	FaultFree   float64  // share of runs with every fault kind off
+	Faults      []string // kinds that count as faults (switched off in fault-free runs)
 }
 
 // RunCfg is the swarm configuration drawn for one run.
@@ -145,9 +147,15 @@ func keyVals(r *Rng, style, typ string, n int, hash bool, c, e string) []AV {
 		// naive join, ("a"+e, c+"x") = ("a"+c, "x") under an escape that does not
 		// escape itself.
 		var fam []string
-		if hash {
+		switch {
+		case c == "%" && hash:
+			// values that a printf-style rendering would interpret
+			fam = []string{"a%s", "a%v", "a%d", "a%", "a%%"}
+		case c == "%":
+			fam = []string{"x", "%s", "%v", "%!v(MISSING)", "%"}
+		case hash:
 			fam = []string{"a", "a" + c, "a" + e, "a" + c + "b", "a" + e + c}
-		} else {
+		default:
 			fam = []string{"x", c + "x", "b" + c + "x", e + c + "x", c}
 		}
 		seen := map[string]bool{}
@@ -217,11 +225,15 @@ func (g *Gen) makeWorld() {
 		u := TableUni{Name: name, IdxVals: map[string][]AV{}}
 		sepC, sepE := ".", "\\"
 		if r.Chance(0.4) {
-			seps := []string{".", "\\", "|", ":", "#", ",", "/", "\x00"}
+			seps := []string{".", "\\", "|", ":", "#", ",", "/", "\x00", "%", "%"}
 			sepC, sepE = pick(r, seps), pick(r, seps)
 		}
-		u.HashVals = keyVals(r, style, hashT, r.Range(2, 4), true, sepC, sepE)
-		u.RangeVals = keyVals(r, style, rangeT, r.Range(2, 4), false, sepC, sepE)
+		maxVals := 4
+		if p.BigUniverse {
+			maxVals = 5
+		}
+		u.HashVals = keyVals(r, style, hashT, r.Range(2, maxVals), true, sepC, sepE)
+		u.RangeVals = keyVals(r, style, rangeT, r.Range(2, maxVals), false, sepC, sepE)
 		g2T := pick(r, []string{"S", "S", "N"})
 		if (style != "numeric" && p.Prop != "C02") || (KnownTriggers["number-sort-key-order"] && r.Chance(0.8)) {
 			g2T = "S"
@@ -356,11 +368,17 @@ func (g *Gen) value(typ string) AV {
 		}
 		return Map(map[string]AV{"k": Map(map[string]AV{"z": g.value("S")}), "j": g.value("BOOL")})
 	case "L":
-		switch r.Intn(3) {
+		switch r.Intn(6) {
 		case 0:
 			return List(g.value("S"))
 		case 1:
 			return List(g.value("N"), g.value("S"))
+		case 2:
+			return List(g.value("NS"), g.value("SS"))
+		case 3:
+			return List(g.value("B"), g.value("BS"), g.value("BOOL"))
+		case 4:
+			return List(Map(map[string]AV{"k": g.value("NS"), "j": g.value("B")}), g.value("NULL"))
 		}
 		return List(List(g.value("S")), g.value("N"))
 	}
@@ -453,6 +471,12 @@ func (g *Gen) item(name string, def TableDef, key Item) Item {
 	}
 	if g.P.MistypedAttrs && !indexed["g1"] && g.R.Chance(0.08) {
 		it["g1"] = N("5")
+	}
+	if g.P.MistypedAttrs && !indexed["g2"] && g.R.Chance(0.15) {
+		it["g2"] = pick(g.R, []AV{N("5"), S("st"), N("10")})
+		if g.R.Chance(0.7) {
+			it["g1"] = g.idxAttrVal(name, "g1", "S")
+		}
 	}
 	n := g.R.Intn(4)
 	for i := 0; i < n; i++ {
@@ -836,6 +860,28 @@ func (g *Gen) try(m *Model, eng *Engine) *Cmd {
 		if len(cmd.Batch) == 0 {
 			return nil
 		}
+		// the same put listed under a second table with the same key schema (a
+		// caller reusing one request value)
+		if names := sortedKeys(mc.Tables); len(names) >= 2 && r.Chance(0.15) {
+			for _, req := range cmd.Batch {
+				if req.Put == nil {
+					continue
+				}
+				for _, tn := range names {
+					tdef := mc.Tables[tn].Def
+					if tn == req.T || schemaString(tdef.KeyAttrs()) != schemaString(mc.Tables[req.T].Def.KeyAttrs()) || seen[tn+"|"+KeyID(tdef, req.Put)] {
+						continue
+					}
+					if keyProblem(tdef.KeyAttrs(), req.Put, false) != "" || indexProblem(tdef, req.Put) {
+						continue
+					}
+					seen[tn+"|"+KeyID(tdef, req.Put)] = true
+					cmd.Batch = append(cmd.Batch, BatchReq{T: tn, Put: req.Put.Clone()})
+					break
+				}
+				break
+			}
+		}
 	case "batchbad":
 		cmd.Op, cmd.Actor, cmd.T = "BatchWrite", "injector", ""
 		if mt == nil {
@@ -933,6 +979,16 @@ func (g *Gen) try(m *Model, eng *Engine) *Cmd {
 			return nil
 		}
 		ix := pick(r, cands)
+		if g.P.MistypedAttrs && ix.Range != nil && r.Chance(0.3) {
+			// the same attribute declared again with another type
+			rt := *ix.Range
+			if rt.Type == "S" {
+				rt.Type = "N"
+			} else {
+				rt.Type = "S"
+			}
+			ix.Range = &rt
+		}
 		cmd.Op, cmd.Actor, cmd.IdxDef = "IndexCreate", "manager", &ix
 		cmd.Helper = (ix.Range == nil || ix.Range.Type == "S") && mt.Def.Billing == "PAY_PER_REQUEST" && r.Chance(0.4)
 	case "idxdrop":
@@ -1143,9 +1199,14 @@ func (g *Gen) try(m *Model, eng *Engine) *Cmd {
 			cmd.Native, cmd.T = "activate", ""
 			break
 		}
-		g.inFilter = true
+		// (no begins_with/contains: the text is reused on other tables, whose
+		// items may lack the attribute - outside the fragment)
 		f := g.cond(name, def, 1)
-		g.inFilter = false
+		at := map[string]bool{}
+		f.Attrs(at)
+		if at[def.Hash.Name] || (def.Range != nil && at[def.Range.Name]) {
+			return nil // filters may not name key attributes of the queried table
+		}
 		cmd.Native, cmd.Filter, cmd.Verdict = "matcher", f, r.Chance(0.5)
 		g.natFilters = append(g.natFilters, natFilter{name, f})
 	case "keyupdate":
@@ -1239,11 +1300,15 @@ func (g *Gen) shape(cmd *Cmd, name string, def TableDef, query bool) {
 		cmd.Back = r.Chance(0.4)
 	}
 	if len(g.natFilters) > 0 && r.Chance(0.35) {
+		// reuse the text of a registered matcher: on its own table it must
+		// dispatch, on any other table (or another client) it must not
 		nf := pick(r, g.natFilters)
-		cmd.Filter = nf.f
-		if r.Chance(0.6) {
-			cmd.T = nf.table // (the caller's table may differ: same text on another table must not dispatch)
+		for _, o := range g.natFilters {
+			if o.table == name && r.Chance(0.7) {
+				nf = o
+			}
 		}
+		cmd.Filter = nf.f
 	} else if r.Chance(0.4) {
 		g.inFilter = true
 		cmd.Filter = g.cond(name, def, 1)
